@@ -556,10 +556,14 @@ func init() {
 			}
 			out := c.Case(Verdict, "tmcffsets.fdselect", fmt.Sprintf("bytes=%s n=%d np=%d", hx(b), n, np), len(b) > 0)
 			cls := totalCffsetsClass(out)
-			if cls == "ok" && strings.Contains(out, "p") {
-				cls = "ok(oob-panics)"
-			} else if cls == "ok" {
-				cls = "ok(oob-value)"
+			if cls == "ok" {
+				// the accessor beyond nGlyphs: does any probe return a value instead of panicking?
+				oob := out[strings.Index(out, ";oob=")+5:]
+				if strings.ContainsAny(oob, "0123456789") {
+					cls = "ok(oob-some-value)"
+				} else {
+					cls = "ok(oob-all-panic)"
+				}
 			}
 			c.Stat("tmcffsets:fdselect", cls)
 			c.Stat("tmcffsets:fdselect-src", src)
